@@ -57,3 +57,75 @@ Fixpoint count_hist (v : variant) (P : params) (fuel : nat) (d : disk) (a : alog
   | S k => fold_left (fun n o => let '(d', rd) := step_disk v P o d in
                                   let '(a', _) := step_spec o (r_first rd) a in n + count_hist v P k d' a') (ops_for a) 0
   end.
+
+(* ---- the same exploration with a failing write inside a Save ---- *)
+
+Definition faults_for (es : list entry) : list fault :=
+  FClear :: FHs :: FSnap :: flat_map (fun j => [FEntry j false; FEntry j true]) (seq 0 (length es)).
+
+(* boolean form of Fault.failed_log *)
+Definition failed_ok (ft : fault) (es : list entry) (h : option hardstate) (old new : alog) : bool :=
+  match es with
+  | [] => true
+  | e0 :: _ =>
+      let b := e_index e0 in
+      let l := a_ents old in
+      let keep := firstn (N.to_nat (b - first_of l)) l in
+      match ft with
+      | FClear => ents_eqb (a_ents new) (firstn (length (a_ents new)) l) && (b - first_of l <? N.of_nat (length (a_ents new)))
+                  && meta_eqb (a_meta new) (a_meta old)
+      | FEntry j _ => ents_eqb (a_ents new) (keep ++ firstn j es) && meta_eqb (a_meta new) (a_meta old)
+      | FHs => ents_eqb (a_ents new) (keep ++ es) && meta_eqb (a_meta new) (a_meta old)
+      | FSnap => ents_eqb (a_ents new) (keep ++ es) && meta_eqb (a_meta new) (store_hs h (a_meta old))
+      end
+  end.
+
+(* one Save of state (d, a) with fault ft:
+   reported  -> the state left behind reads like the log Fault.failed_log describes (first/last index, full scan, Term
+                and Entries at the boundaries), and saving the batch again gives the answer and the state of the
+                specification's Save;
+   unreported-> the Save counts as done: now and after a reopen the store must read like the specification's result. *)
+Definition check_fault (v : variant) (P : params) (d : disk) (a : alog) (o : sop) (ft : fault) : bool :=
+  match o with
+  | Save es h s =>
+      let '(rep, d1) := save_fail v P es h s ft d in
+      let '(a2, ra) := step_spec o 0 a in
+      if rep then
+        let '(es1, _) := disk_all P d1 in
+        let a1 := mkalog es1 (d_meta d1) in
+        failed_ok ft es h a a1 && agree v P d1 a1
+        && (disk_first d1 =? a_first a1) && (disk_last P d1 =? a_last a1)
+        && (let '(d2, r2) := step_disk v P o d1 in result_eqb r2 ra && agree v P d2 a2)
+      else
+        agree v P d1 a2
+        && (let '(d3, r3) := step_disk v P Reopen d1 in
+            let '(a3, _) := step_spec Reopen (r_first r3) a2 in agree v P d3 a3)
+  | _ => true
+  end.
+
+Definition faults_ok (v : variant) (P : params) (d : disk) (a : alog) : bool :=
+  forallb (fun o => match o with
+                    | Save es _ _ => forallb (check_fault v P d a o) (faults_for es)
+                    | _ => true
+                    end) (ops_for a).
+
+Fixpoint explore_f (v : variant) (P : params) (fuel : nat) (d : disk) (a : alog) : bool :=
+  faults_ok v P d a &&
+  match fuel with
+  | O => true
+  | S k =>
+      forallb (fun o =>
+                 let '(d', rd) := step_disk v P o d in
+                 let '(a', ra) := step_spec o (r_first rd) a in
+                 explore_f v P k d' a') (ops_for a)
+  end.
+
+Fixpoint count_faults (v : variant) (P : params) (fuel : nat) (d : disk) (a : alog) : N :=
+  fold_left (fun n o => match o with Save es h s =>
+                          n + N.of_nat (length (filter (fun ft => fst (save_fail v P es h s ft d)) (faults_for es)))
+                        | _ => n end) (ops_for a) 0 +
+  match fuel with
+  | O => 0
+  | S k => fold_left (fun n o => let '(d', rd) := step_disk v P o d in
+                                  let '(a', _) := step_spec o (r_first rd) a in n + count_faults v P k d' a') (ops_for a) 0
+  end.
